@@ -679,8 +679,10 @@ class PowerExpression(BinaryExpression):
         # Integer powers are exact. np.power wraps silently at 64 bits and refuses
         # negative integer exponents of integers.
         if isinstance(one, (int, np.integer)) and isinstance(two, (int, np.integer)):
-            if two >= 0:
-                return int(one) ** int(two)
+            one, two = int(one), int(two)
+            # ...as long as the result stays within a few thousand bits
+            if 0 <= two and two * one.bit_length() <= 4096:
+                return one**two
             one = float(one)
         return np.power(one, two)
 
